@@ -52,7 +52,11 @@ def flat_model(rnd):
         rnd.shuffle(pool)
         for pn in pool[:rnd.choice([2, 3, 4, 9, 10])]:
             t = rnd.choice(['str', 'int', 'float', 'bool', ('list', 0, 'int'), ('dict', 3, 'str', 'str'), ('optional', 'int'),
-                            ('union', ['int', ('list', 0, 'int')]), ('union', ['float', ('list', 1, 'float')])] +
+                            ('union', ['int', ('list', 0, 'int')]), ('union', ['float', ('list', 1, 'float')]),
+                            # collections below a Union / Optional, two levels deep: the failure is far below the Union's node
+                            ('optional', ('dict', 3, 'str', ('dict', 3, 'str', 'int'))),
+                            ('union', [('dict', 3, 'str', ('dict', 3, 'str', 'int')), ('list', 0, 'int')]),
+                            ('optional', ('list', 0, ('dict', 3, 'str', 'float'))), ('dict', 3, 'str', ('list', 0, 'int'))] +
                            ([('class', names[i - 1])] if i > 0 else []))
             params.append({'name': pn, 'type': t, 'required': rnd.random() < 0.6})
         if not any(p['required'] for p in params):
@@ -246,7 +250,10 @@ def tie(ctx, model_ok=True):
                 res['failing'].append({'signature': w[0] + ':' + kind, 'what': w[1], 'case': case})
                 continue
             # the corrupted node, the keys on the way to it, and the starts of the enclosing MAPPINGS (not of enclosing sequences)
-            ok_lines = {x.start_mark.line + 1 for x in place[:-1] if not isinstance(x, yaml.SequenceNode)} | {place[-1].start_mark.line + 1}
+            # (the INNERMOST enclosing mapping: the start of an outer table is not where the corruption is)
+            inner_map = [x for x in place[:-1] if isinstance(x, yaml.MappingNode)][-1:]
+            last_key = [place[-2]] if path and path[-1][0] == 'v' else []
+            ok_lines = {x.start_mark.line + 1 for x in inner_map + last_key} | {place[-1].start_mark.line + 1}
             if key is not None:
                 # the (misspelt / surplus) key itself is a corrupted place too
                 try:
